@@ -262,3 +262,75 @@ class E1:
 def run(case, oracles):
     m = E1(case, oracles).execute()
     return m
+
+
+# ============================================================ Hypothesis stateful machine (C01 / C07)
+
+def env_machine(oracles, summarise):
+    """RuleBasedStateMachine over a real Environment + reference model. Assets for pause / unpause / cancel are
+    drawn FROM THE CURRENT STATE (assets that have queued resp. paused events), so nearly every operation has an
+    effect; the history is recorded as the same JSON operation list the plain interpreter replays."""
+    from hypothesis import strategies as st
+    from hypothesis.stateful import RuleBasedStateMachine, rule, precondition, invariant
+    from engines import e1gen
+
+    def factory(cap):
+        class EnvMachine(RuleBasedStateMachine):
+            def __init__(self):
+                super().__init__()
+                cap['ops'] = []
+                self.m = E1({'weights': [0.5, 0.1, 0.5, 0.9], 'ops': []}, oracles)
+                self.w = installed(Weights(script=[0.5, 0.1, 0.5, 0.9]))
+                self.w.__enter__()
+                self.do(['s', 1, 1, 5, []])
+                self.do(['run', 0.75])
+
+            def do(self, op):
+                cap['ops'].append(op)
+                self.m.apply(op)
+                self.m.compare_pending()
+
+            def assets(self, state):
+                return sorted({r.asset for r in self.m.recs if r.state == state and not r.cancelled})
+
+            @rule(a=e1gen.sched_asset, d=e1gen.delta, p=e1gen.prio, prog=e1gen.inner_ops(1))
+            def schedule(self, a, d, p, prog):
+                self.do(['s', a, d, p, prog])
+
+            @precondition(lambda self: self.assets('q'))
+            @rule(data=st.data())
+            def pause_asset_with_queued_events(self, data):
+                self.do(['p', data.draw(st.sampled_from(self.assets('q')))])
+
+            @precondition(lambda self: self.assets('p'))
+            @rule(data=st.data())
+            def unpause_paused_asset(self, data):
+                self.do(['u', data.draw(st.sampled_from(self.assets('p')))])
+
+            @precondition(lambda self: self.assets('q') or self.assets('p'))
+            @rule(data=st.data())
+            def cancel_asset_with_events(self, data):
+                self.do(['c', data.draw(st.sampled_from(self.assets('q') + self.assets('p')))])
+
+            @rule(a=e1gen.asset, k=st.sampled_from(['p', 'u', 'c']))
+            def any_asset(self, a, k):
+                self.do([k, a])
+
+            @precondition(lambda self: bool(self.m.env._events))
+            @rule()
+            def step(self):
+                self.do(['step'])
+
+            @rule(d=st.sampled_from([0, 0.25, 0.5, 1, 1.5, 2]))
+            def run(self, d):
+                self.do(['run', d])
+
+            @rule(d=st.sampled_from([0.125, 1, 'ulp', 1e-12]))
+            def past(self, d):
+                self.do(['past', d])
+
+            def teardown(self):
+                self.w.__exit__(None, None, None)
+                cap['done']({'weights': [0.5, 0.1, 0.5, 0.9], 'ops': list(cap['ops'])}, summarise(self.m))
+        return EnvMachine
+    return factory
